@@ -57,9 +57,12 @@ extern "C" {
 		g_sim.time_calls++;
 		time_t v = (time_t)g_sim.clock_now;
 		g_sim.clock_now += g_sim.clock_step;
-		// the simulated clock stays inside [1980-01-01, 2107-12-31], the range the DOS date field of a zip member can express
-		if (g_sim.clock_now < 315532800LL) g_sim.clock_now = 315532800LL;
-		if (g_sim.clock_now > 4354819199LL) g_sim.clock_now = 4354819199LL;
+		// the simulated clock normally stays inside [1980-01-01, 2107-12-31], the range the DOS date field of a zip member can express; one
+		// environment in ten starts outside it (a machine without a clock, a far future): there it may move within [1970-01-01, 2112]
+		bool outside = g_sim.clock_start < 315532800LL || g_sim.clock_start > 4354819199LL;
+		int64_t lo = outside ? 0 : 315532800LL, hi = outside ? 4500000000LL : 4354819199LL;
+		if (g_sim.clock_now < lo) g_sim.clock_now = lo;
+		if (g_sim.clock_now > hi) g_sim.clock_now = hi;
 		if (g_sim.clock_step) g_sim.fired["clock_jump_inside_op"]++;
 		g_log.ev("time", (uint64_t)v);
 		if (t) *t = v;
